@@ -29,6 +29,9 @@ import (
 	"verifharness/hk"
 )
 
+// abortRun unwinds the generator after a stall.
+type abortRun struct{ why string }
+
 type gen struct {
 	r *hk.Run
 	e *exec
@@ -54,6 +57,11 @@ func (g *gen) op(line string) string {
 	g.r.Op(line, out)
 	if strings.HasPrefix(out, "hang") || strings.HasPrefix(out, "broken") || out == "panic" {
 		g.r.Fail("impl-"+strings.Fields(out)[0], line, "an answer", out, g.r.CaseOps())
+	}
+	if strings.Contains(out, "hang") {
+		// a call into the store did not come back within callTimeout: goroutines are stuck, nothing
+		// that follows would be meaningful
+		panic(abortRun{"the store stalled at: " + line})
 	}
 	return out
 }
@@ -158,6 +166,10 @@ func (g *gen) checkFetch(sto interface{}, where, ref string, must bool) string {
 		data, size, cl = fetchRaw(s.sto, ref)
 	}
 	g.r.ImplOnly("fetch-oracle")
+	if cl == "hang" {
+		g.r.Fail("impl-hang", "Fetch("+ref+") did not return ("+where+")", "an answer", "hang", g.r.CaseOps())
+		panic(abortRun{"Fetch stalled"})
+	}
 	want, known := e.plain[ref]
 	if cl == "ok" {
 		if !known || !bytes.Equal(data, want) || int(size) != len(want) {
@@ -190,6 +202,9 @@ func (g *gen) recoverCheck(where string, bm, mm map[string][]byte, live map[stri
 	defer w.close()
 	if err != nil {
 		g.r.Fail("recover-startup-fails@"+where, "a new storage over untampered wrapped stores does not start", "ok", err.Error(), g.r.CaseOps())
+		if err == errHang {
+			panic(abortRun{"start-up over a copy of the wrapped stores stalled"})
+		}
 		return
 	}
 	rebuilt := map[string]string{}
@@ -1166,6 +1181,65 @@ func (g *gen) duplicates(how string) {
 	g.fetchAll("live")
 	g.crashPrefixes(5, false)
 	g.r.Distinct("duplicates:" + how)
+}
+
+// keepRestart: a restart that KEEPS the meta index (an on-disk index survives an ordinary restart) at a
+// chosen point of a history - before the first compaction, right after one, between two - then receives
+// until the next compaction, then the index is lost: wiped-index rebuild with the usual oracle.
+func (g *gen) keepRestart(before int, again bool) {
+	g.begin(fmt.Sprintf("keep-restart-%d", before))
+	compactions := 0
+	recvUntil := func(n int, stopAtCompaction bool) {
+		for i := 0; i < n; i++ {
+			g.recv("recv", g.freshData(12+g.r.R.Intn(24)))
+			calls := g.op("calls")
+			g.uploadFirst(calls, 2)
+			if strings.Contains(calls, "M-") {
+				compactions++
+				g.r.Hit("keep:compaction-after-kept-index-restart")
+				g.op("sum")
+				g.pointCheck(true)
+				if stopAtCompaction {
+					return
+				}
+			} else if i%15 == 0 {
+				g.pointCheck(true)
+			} else {
+				g.leakScan()
+			}
+		}
+	}
+	recvUntil(before, false)
+	g.op("dump")
+	g.pointCheck(true)
+	metas := len(g.e.w.meta.m)
+	out := g.restart("keep", true)
+	g.r.Hit(fmt.Sprintf("keep:restart-keep(after-%d-compactions):%s", compactions, out))
+	g.op("calls")
+	g.op("sum")
+	g.pointCheck(true)
+	// on to the next compaction (the heap now holds every meta blob the scan met)
+	recvUntil(130, true)
+	if again {
+		g.restart("keep", true)
+		g.op("calls")
+		g.pointCheck(true)
+		recvUntil(130, true)
+	}
+	g.op("dump")
+	// the index is lost
+	out = g.restart("wipe", true)
+	g.r.Hit("keep:wipe-after-compaction:" + out)
+	g.op("dump")
+	g.pointCheck(true)
+	g.fetchAll("live")
+	for i := 0; i < 25; i++ {
+		j := g.r.R.Intn(len(g.e.labels))
+		g.op(fmt.Sprintf("fetch @%d", j+1))
+		g.checkFetch(g.e.w, "live", g.e.labels[j], true)
+	}
+	g.crashPrefixes(4, false)
+	g.r.Distinct(fmt.Sprintf("keep-restart:%d:%d:%v", before, metas, again))
 }
 
 // malformed op lines: both sides must refuse them the same way
